@@ -259,8 +259,13 @@ class Model(object):
             target = e.attrs.get("target", "")
             name = e.attrs["event"]
             delay = e.meta.get("delay", 0)
-            if target == "#_internal":
+            if target == "#_internal" and not delay:
                 self.raise_internal(name)
+            elif target == "#_internal":
+                # delivered to the internal queue by the timer, asynchronously: from the model's point of view one more
+                # event that arrives from outside at a later time
+                self.pending_ext.append([name, e.attrs.get("id", ""), False, "int"])
+                self.tokens.append(("s", name, delay, e.attrs.get("id", "")))
             else:
                 self.pending_ext.append([name, e.attrs.get("id", ""), False])
                 self.tokens.append(("s", name, delay, e.attrs.get("id", "")))
@@ -414,7 +419,30 @@ class Model(object):
                         break
                 if done:
                     break
+        self._probe(enabled)
         return self.remove_conflicting(enabled)
+
+    def _probe(self, enabled):
+        """Reach probes (no influence on the model): how often a microstep has three or more candidate transitions,
+        a preemption among them, and a conflicting pair that meets for the first time next to a pair that met before
+        (the situation in which the engines' lazily filled conflict caches decide)."""
+        pr = self.__dict__.setdefault("probes", {"cand3": 0, "cand3_preempt": 0, "cache_sensitive": 0})
+        seen = self.__dict__.setdefault("seen_pairs", set())
+        if len(enabled) >= 3:
+            pr["cand3"] += 1
+            ex = [set(id(x) for x in self.compute_exit_set([t])) for t in enabled]
+            conf = [(i, j) for i in range(len(enabled)) for j in range(i + 1, len(enabled)) if ex[i] & ex[j]]
+            if conf:
+                pr["cand3_preempt"] += 1
+                for (i, j) in conf:
+                    if (id(enabled[i]), id(enabled[j])) in seen:
+                        continue
+                    if any((id(enabled[b]), id(enabled[j])) in seen for b in range(j) if b != i):
+                        pr["cache_sensitive"] += 1
+                        break
+        for i in range(len(enabled)):
+            for j in range(i + 1, len(enabled)):
+                seen.add((id(enabled[i]), id(enabled[j])))
 
     def remove_conflicting(self, enabled):
         filtered = []
